@@ -98,6 +98,14 @@ func vfInt(u uint64) int {
 
 func vfRandBytes(r interface{ Intn(int) int }, n int) []byte {
 	b := make([]byte, n)
+	if n > 1<<16 { // large frames: a cheap deterministic pattern with a random phase
+		a, c := r.Intn(256), 1+2*r.Intn(100)
+		for i := range b {
+			b[i] = byte(i*c + i>>8 + i>>16 + a)
+		}
+
+		return b
+	}
 	for i := range b {
 		b[i] = byte(r.Intn(256))
 	}
